@@ -99,3 +99,60 @@ def merge(rng, lists):
 
 def to_pcapng(pkts, **kw):
     return synth.pcapng([(p["ts"], p["frame"]) for p in pkts], **kw)
+
+
+def perturb(rng, pkts, kind):
+    """a capture as a lossy network would show it: duplicates, coalesced / partial retransmissions, late segments.
+    Returns a new packet list (timestamps re-stamped increasing) or None when the capture offers no place for `kind`."""
+    from . import readback
+    out = [dict(p) for p in pkts]
+    data = [i for i, p in enumerate(out) if p.get("len")]
+    if not data:
+        return None
+
+    def rebuild(i, payload, seq=None):
+        f = readback.parse_frame(out[i]["frame"])
+        return synth.tcp_frame(f["smac"], f["dmac"], f["src"], f["dst"], f["sport"], f["dport"], f["seq"] if seq is None else seq, f["ack"], f["flags"], payload)
+
+    def payload(i):
+        return readback.parse_frame(out[i]["frame"])["payload"]
+    if kind == "duplicate":                      # an exact copy of a data segment, somewhere later
+        i = rng.choice(data)
+        j = rng.randrange(i + 1, len(out) + 1)
+        out.insert(j, dict(out[i]))
+    elif kind in ("coalesced", "partial"):
+        # S_i, S_i+1 of one direction already captured; then a retransmission with S_i's sequence number carrying S_i+S_i+1 (coalesced)
+        # or only a part of S_i (partial)
+        pairs = [(a, b) for a, b in zip(data, data[1:]) if out[a]["isserver"] == out[b]["isserver"]]
+        if kind == "coalesced":
+            if not pairs:
+                return None
+            a, b = rng.choice(pairs)
+            new = dict(out[a], frame=rebuild(a, payload(a) + payload(b)))
+            j = rng.randrange(b + 1, len(out) + 1)
+        else:
+            cands = [i for i in data if out[i]["len"] >= 2]
+            if not cands:
+                return None
+            a = rng.choice(cands)
+            pa = payload(a)
+            new = dict(out[a], frame=rebuild(a, pa[:rng.randrange(1, len(pa))]))
+            j = rng.randrange(a + 1, len(out) + 1)
+        out.insert(j, new)
+    elif kind == "late":                         # a data segment (not the first of its direction) captured after the next ones
+        first = {}
+        for i in data:
+            first.setdefault(out[i]["isserver"], i)
+        cands = [i for i in data if i != first[out[i]["isserver"]] and i + 1 < len(out)]
+        if not cands:
+            return None
+        i = rng.choice(cands)
+        p = out.pop(i)
+        out.insert(min(len(out), i + rng.randrange(1, 4)), p)
+    else:
+        raise ValueError(kind)
+    t = out[0]["ts"]
+    for p in out:
+        t += rng.choice([1, 10, 333, 5000])
+        p["ts"] = t
+    return out
